@@ -6,7 +6,7 @@ LEVEL = "exploration"
 RUNS = {"quick": 6000, "thorough": 100000}
 BUDGET_S = {"quick": 50, "thorough": 840}
 CHUNK = 50
-RULE = ("One evaluation = one seeded history of `gwf config set/unset/get` (fresh incarnation each, from the project root, a sub-directory, or elsewhere with -f) over keys incl. dotted keys sharing prefixes and look-alike namespaces, values incl. digits, boolean words, empty, unicode, against M_conf (file content == explicitly set keys, get == set value coerced by the statement's rule or default or '<not set>'), interleaved with effect probes `gwf [-b X] [-v L] [--no-color|--use-color] status|run` observed at the seams: which scheduler executables run / which address is connected to (backend = flag over config over default), sacct called iff accounting enabled, log directives per log_mode, debug lines iff level debug (flag over config over default), click's tty hack iff colours disabled (flag over config over NO_COLOR).")
+RULE = ("One evaluation = one seeded history of `gwf config set/unset/get` (fresh incarnation each, from the project root, a sub-directory, or elsewhere with -f) over keys incl. dotted keys sharing prefixes and look-alike namespaces, values incl. digits, boolean words, empty, unicode, undecodable bytes (surrogate escapes), against M_conf (file content == explicitly set keys, get == set value coerced by the statement's rule or default or '<not set>'), interleaved with effect probes `gwf [-b X] [-v L] [--no-color|--use-color] status|run` observed at the seams: which scheduler executables run / which address is connected to (backend = flag over config over default), sacct called iff accounting enabled, log directives per log_mode, debug lines iff level debug (flag over config over default), click's tty hack iff colours disabled (flag over config over NO_COLOR).")
 PROFILE = dict(backends=["multi"], sizes=[1, 2, 3], lengths=[4, 8, 12, 20], weights={}, p_hashing=0.0, cwds=["root"],
                exotic_shapes=False)
 make_scenario = make({"C20"}, PROFILE, ConfScenario)
